@@ -458,7 +458,7 @@ def _bfs(args):
 
 
 def run(ctx):
-    d = 4 if ctx.quick else 5
+    d = 3 if ctx.quick else 4
     plans = [("kde_gauss", d + 1, 0), ("kde_histogram", d + 1, 0),
              ("kde_multivariate", d, 0), ("downsample_grid", d + 1, 0),
              ("cache-all", d, 0), ("hashfile", d + 1, 1),
